@@ -324,10 +324,19 @@ func checkC02(r *Run) {
 		r.undecided("r2", "recv: size variable", recv.Decl.Pos(), "size := headerBuf.Read32() not found")
 		return
 	}
+	// the negotiated limit: recv's uint32 parameter
+	msizeN := "msize"
+	for _, f := range recv.Decl.Type.Params.List {
+		for _, nm := range f.Names {
+			if t := info.Defs[nm].Type(); t.String() == "uint32" {
+				msizeN = nm.Name
+			}
+		}
+	}
 	boundFacts := func(st *HState) (bool, string) {
 		a := st.holds("headerLength > "+sizeN, false)
 		b := st.holds(sizeN+" > maximumLength", false)
-		c := st.holds(sizeN+" > msize", false)
+		c := st.holds(sizeN+" > "+msizeN, false)
 		return a && b && c, fmt.Sprintf("size ≥ headerLength: %v, size ≤ 4 MiB: %v, size ≤ msize: %v", a, b, c)
 	}
 	nAlloc := 0
@@ -344,8 +353,22 @@ func checkC02(r *Run) {
 				isAlloc, what, sizeArg = true, "make(…, "+nospace(s.Res.str(s.Call.Args[1]))+")", s.Call.Args[1]
 			}
 		}
-		if id, ok := s.Call.Fun.(*ast.Ident); ok && id.Name == "appendBuffer" {
-			isAlloc, what, sizeArg = true, "appendBuffer("+nospace(s.Res.str(s.Call.Args[0]))+")", s.Call.Args[0]
+		// a call of a local function literal that allocates by its argument (appendBuffer)
+		if id, ok := s.Call.Fun.(*ast.Ident); ok && len(s.Call.Args) == 1 {
+			if lit, isLit := unparen(res.defs[objOf(info, id)]).(*ast.FuncLit); isLit && res.defs[objOf(info, id)] != nil {
+				allocates := false
+				ast.Inspect(lit.Body, func(n ast.Node) bool {
+					if c, isCall := n.(*ast.CallExpr); isCall {
+						if mk, isId := c.Fun.(*ast.Ident); isId && mk.Name == "make" {
+							allocates = true
+						}
+					}
+					return true
+				})
+				if allocates {
+					isAlloc, what, sizeArg = true, id.Name+"("+nospace(s.Res.str(s.Call.Args[0]))+")", s.Call.Args[0]
+				}
+			}
 		}
 		if s.Callee == "io.LimitReader" || s.Callee == "vecnet.Buffers.ReadFrom" {
 			isAlloc, what = true, s.Callee
@@ -397,7 +420,11 @@ func checkC02(r *Run) {
 		case "p9.connState.handleRequest":
 			okA := allDefsAre(info, s.Root, s.Call.Args[2], func(e ast.Expr) bool {
 				t := norm(e)
-				return t == "atomic.LoadUint32(&cs.messageSize)" || t == "maximumLength"
+				if strings.HasPrefix(t, "atomic.LoadUint32(&") && strings.HasSuffix(t, ".messageSize)") {
+					return true
+				}
+				v, isC := constInt(info, e)
+				return isC && v == 4<<20 // before negotiation: the 4 MiB ceiling
 			})
 			r.check(okA, "r2", "server passes the negotiated msize to recv", s.Call.Pos(), arg+" = cs.messageSize (4 MiB before negotiation)", "the server's receive limit "+arg+" is not the negotiated message size")
 		case "p9.Client.handleOne":
@@ -476,7 +503,7 @@ func checkC02(r *Run) {
 		}
 		readBody := ex.St.May["vecnet.Buffers.ReadFrom"] || ex.St.May["io.Copy"] || ex.St.May["io.LimitReader"]
 		// r4: size-check exits read nothing beyond the header
-		sizeExit := !ex.St.holds("headerLength > "+sizeN, false) || !(ex.St.holds(sizeN+" > maximumLength", false) && ex.St.holds(sizeN+" > msize", false))
+		sizeExit := !ex.St.holds("headerLength > "+sizeN, false) || !(ex.St.holds(sizeN+" > maximumLength", false) && ex.St.holds(sizeN+" > "+msizeN, false))
 		if sizeExit && ex.St.Must["p9.buffer.Read32"] {
 			r.check(isConn && !readBody && !ex.St.May[""] && !mayCallLookup(ex.St), "r4", key+": bad size ends the connection without reading the body", ex.Ret.Pos(), "ConnError, nothing read after the header",
 				"a size field below 7 or above the limit does not end the connection before anything else is read from the stream")
@@ -538,9 +565,16 @@ func checkC02(r *Run) {
 		r.check(okMark, "r6", "consume records an overrun", cf.Decl.Pos(), "!has(n) → markOverrun", "a failed consume does not mark the buffer as overrun")
 	}
 	okChk := false
+	// the buffer the message is decoded from: the argument of m.decode(&X)
+	decBuf := ""
+	for _, s := range db.ByFunc[recv] {
+		if s.Call != nil && strings.HasSuffix(s.Callee, ".decode") && len(s.Call.Args) == 1 {
+			decBuf = strings.TrimPrefix(res.str(s.Call.Args[0]), "&")
+		}
+	}
 	for _, ex := range db.Exits[recv] {
 		if ex.Ret != nil && len(ex.Ret.Results) == 3 && isNilIdent(info, unparen(ex.Ret.Results[2])) && !ex.St.Dead {
-			okChk = ex.St.holds("dataBuf.isOverrun()", false) && ex.St.Must["p9.buffer.isOverrun"]
+			okChk = decBuf != "" && ex.St.holds(decBuf+".isOverrun()", false) && ex.St.Must["p9.buffer.isOverrun"]
 		}
 	}
 	r.check(okChk, "r6", "recv delivers a message only if the decoder did not overrun", recv.Decl.Pos(), "isOverrun() false on the success exit", "the success exit of recv is not guarded by dataBuf.isOverrun(): a message decoded from a too-short body (zero-filled fields) would be delivered")
@@ -636,11 +670,12 @@ func c02ServerReaction(r *Run, m *ServerModel) {
 		}
 		c := counts[ex.Ret]
 		retv := strings.ReplaceAll(r.L.str(ex.Ret.Results[0]), " ", "")
-		// ConnError branch: fact ok (of the ConnError assertion) true
+		// ConnError branch: the comma-ok of the ConnError assertion is true
+		connOK := m.resultName(hr, -1, isAssertTo(info, "p9.ConnError"))
 		conn := false
 		for _, p := range ex.St.Paths {
 			for k, v := range p {
-				if k == "ok" && v {
+				if k == connOK && v && connOK != "" {
 					conn = true
 				}
 			}
